@@ -233,10 +233,19 @@ func main() {
 			var pts []point
 			points(ti.s, nodes, "", &pts)
 			for pi, p := range pts {
-				for kk := 0; kk < kindsPerPoint; kk++ {
-					kind := rc.ExtraKinds[(pi*7+kk*5+k)%len(rc.ExtraKinds)]
-					if kindsPerPoint == len(rc.ExtraKinds) {
+				for kk := 0; kk <= kindsPerPoint; kk++ {
+					var kind string
+					switch {
+					case kk == kindsPerPoint:
+						// one very deeply nested unknown field at every fifth point (every point of the first value)
+						if k != 0 && (pi+k)%5 != 0 {
+							continue
+						}
+						kind = rc.DeepKinds[(pi+k)%len(rc.DeepKinds)]
+					case kindsPerPoint == len(rc.ExtraKinds):
 						kind = rc.ExtraKinds[kk]
+					default:
+						kind = rc.ExtraKinds[(pi*7+kk*5+k)%len(rc.ExtraKinds)]
 					}
 					if kind == "string4-64k" && !run.Thorough() && (pi+k)%9 != 0 {
 						continue
